@@ -11,6 +11,11 @@ PROP = {
         'point before every shared access); code between two points is thread-local',
         'the crossbeam unbounded channel is a linearizable FIFO queue (send = push back, try_recv = pop front) '
         'and is never disconnected (both ends are owned by the TaskBlockingQueue)',
+        'caller protocol: the theorems C11_barrier_ctrl / C11_pre_block_protocol are about blocking_done() read '
+        'while the handle is held (program start; await); the real RedisScanMigratingTask::start() (pre_check, '
+        'pre_block, pre_switch, handle.stop()) is driven as controller command B of the threaded harness with a '
+        'stand-in peer proxy (OK to PING/PRECHECK/PRESWITCH; PRESWITCH marks "pre_block returned"), tokio '
+        'current-thread runtime with paused clock; the scan phase after handle.stop() is not driven',
         'BlockingMap: DashMap::entry is atomic per address (get_or_create is one atomic step of the map '
         'model); a queue dies exactly when its last holder (sender or Arc) is dropped - the map itself and '
         'CachedSenderFactory only hold Weak references; a BlockingHandle is not held beyond its controller',
@@ -53,7 +58,9 @@ CHECK = {
             'are exact, every enqueue is matched by exactly one of queued / popped / re-dispatched, a '
             'task is never both handed and queued, Retry results leave the task untouched with the caller, and '
             'in every quiescent state the queue is empty and each queued task was re-dispatched exactly once; '
-            'a Blocking hint is never handed; (which queue) after any history of acquiring and dropping senders / '
+            'a Blocking hint is never handed; (caller protocol) the wait loop of pre_block (start_blocking, then '
+            'poll blocking_done until true) is left only with the barrier closed, and the program poll-then-start '
+            'is shown to break it; (which queue) after any history of acquiring and dropping senders / '
             'controllers on a BlockingMap - including complete release and re-use of an address - live holders '
             'have the same queue iff they have the same address, so the per-queue theorems apply to the '
             'client-path / migration-path pair the proxy actually uses. Known finding F11a: a release_all that outlives its blocking '
